@@ -170,6 +170,10 @@ impl FileSystem for MemoryFS {
     }
 
     fn create_dir(&self, path: &str) -> VfsResult<()> {
+        if path.is_empty() {
+            // the root directory always exists
+            return Err(VfsErrorKind::DirectoryExists.into());
+        }
         self.ensure_has_parent(path)?;
         let map = &mut self.handle.write().unwrap().files;
         let entry = map.entry(path.to_string());
